@@ -265,7 +265,8 @@ def random_cfg(rng, nvars=None, Sigma=None, maxlen=3, cnf=False, simple=True, mu
 # ------------------------------------------------------------------ PDA
 def random_pda(rng, nmax=3, tmax=6, markers=False):
     n = rng.randint(1, nmax)
-    scheme = rng.choice([lambda i: 'q%d' % i, lambda i: 's%d' % i, lambda i: ['q_accept1', 'q_initial1', 'M1', 'q_drain1'][i]])
+    scheme = rng.choice([lambda i: 'q%d' % i, lambda i: 's%d' % i, lambda i: ['q_accept1', 'q_initial1', 'M1', 'q_drain1'][i],
+                         lambda i: ['p', 'p_p', 'p_p_p', 'q'][i]])
     Q = [scheme(i) for i in range(n)]
     Sigma = rng.choice([['a', 'b'], ['a'], ['a', 'b'], ['0', '1']])
     Gamma = rng.choice([['x'], ['x', 'y'], ['x', 'y'], ['A', 'B']])
@@ -360,3 +361,64 @@ def unit_chain_cfg(rng):
     for i, r in enumerate(R):
         r[1] = i
     return {'V': V, 'Sigma': sorted({n for _, _, rhs in R for k, n in rhs if k == 't'}), 'R': R, 'S': 'S'}
+
+
+def ambiguous_stack_pda(rng):
+    """stack symbols s1, s2 and s1+s2: the stacks [s1+s2] and [s1, s2] print alike but are different configurations;
+    both are epsilon-reachable in the same state and only one of them leads to acceptance"""
+    s1, s2 = rng.choice([('a', 'b'), ('x', 'y'), ('A', 'AA'), ('0', '1')])
+    Gamma = [s1, s2, s1 + s2] if s1 + s2 not in (s1, s2) else [s1, s2]
+    eps = rng.choice(['_', 'ε', ''])
+    Q = ['q0', 'q1', 'q2', 'qf']
+    a = 'x' if 'x' not in Gamma else 'c'
+    delta = {('q0', eps, eps): {('q1', s1 + s2), ('q2', s1)}, ('q2', eps, eps): {('q1', s2)}}
+    pop = rng.choice([s1 + s2, s2])
+    delta[('q1', a, pop)] = {('qf', eps)}
+    if rng.random() < 0.5:
+        delta[('qf', a, s1)] = {('qf', eps)}
+    d = [[p, b, u, sorted([list(t) for t in T])] for (p, b, u), T in delta.items()]
+    rng.shuffle(d)
+    return {'Q': Q, 'Sigma': [a], 'Gamma': sorted(set(Gamma)), 'delta': d, 'q0': 'q0', 'F': ['qf'], 'eps': eps, 'dd': True}
+
+
+def push_loop_pda(rng):
+    """an epsilon loop that grows the stack next to an epsilon branch of length k >= 1 towards the state that reads a letter:
+    the epsilon-reachable configurations are infinite, yet every accepted word has a short accepting run"""
+    k = rng.randint(1, 3)
+    names = rng.choice([['push', 'mid', 'next', 'ready', 'done'], ['a0', 'b1', 'c2', 'd3', 'e4'], ['z', 'y', 'x', 'w', 'v'],
+                        ['q0', 'q1', 'q2', 'q3', 'q4']])
+    eps = rng.choice(['_', 'ε', ''])
+    chain = names[:k + 1]
+    done = names[-1]
+    loop_at = rng.choice(chain[:-1])
+    delta = {}
+    for p, q in zip(chain, chain[1:]):
+        delta.setdefault((p, eps, eps), set()).add((q, eps))
+    delta.setdefault((loop_at, eps, eps), set()).add((loop_at, 'x'))
+    delta[(chain[-1], 'a', eps)] = {(done, eps)}
+    if rng.random() < 0.5:
+        delta[(done, 'a', 'x')] = {(done, eps)}
+    d = [[p, b, u, sorted([list(t) for t in T])] for (p, b, u), T in delta.items()]
+    rng.shuffle(d)
+    return {'Q': chain + [done], 'Sigma': ['a'], 'Gamma': ['x'], 'delta': d, 'q0': chain[0], 'F': [done], 'eps': eps, 'dd': True}
+
+
+def chain_dfa(rng):
+    """a line q0 -> q1 -> ... -> qk of `a`-moves with few accepting states far apart, other letters to a trap: fixpoint
+    computations over it need several passes in most iteration orders"""
+    k = rng.randint(4, 8)
+    names = ['q%d' % i for i in range(k + 1)]
+    rng.shuffle(names)
+    Sigma = rng.choice([['a'], ['a', 'b']])
+    trap = 't'
+    Q = names + [trap]
+    delta = []
+    for i, q in enumerate(names):
+        delta.append([q, 'a', names[i + 1] if i < k else trap])
+        for b in Sigma[1:]:
+            delta.append([q, b, trap])
+    for b in Sigma:
+        delta.append([trap, b, trap])
+    F = sorted({names[rng.randint(0, 1)], names[k]} | ({names[rng.randint(0, k)]} if rng.random() < 0.3 else set()))
+    rng.shuffle(delta)
+    return {'Q': Q, 'Sigma': Sigma, 'delta': delta, 'q0': names[0], 'F': F}
